@@ -376,6 +376,29 @@ async fn run_scenario(out: &mut dyn Write, viol: &mut u64, base: &Utf8PathBuf, s
     // ---- later user commands
     let reports: Arc<std::sync::Mutex<Vec<(usize, Option<TransactionID>)>>> = Arc::new(std::sync::Mutex::new(vec![]));
     let mut cmd_tasks = vec![];
+    // ---- user primitives that come too late or address nothing that is suspended (isolation scenarios): a
+    // Resume.request for every undisturbed job at its sending daemon (150, 600, 1100 ms after the Puts) and at its
+    // receiving daemon (350, 900 ms) - while the transaction runs, in the second between its end and the cleanup of
+    // its entry, and after that.  None of them may stop a daemon or change any outcome (oracles daemon_alive,
+    // others_unaffected, put_answered for the jobs that follow).
+    if sc.isolation && !sc.early_exit {
+        for j in jobs.iter() {
+            let Some(id) = j.id else { continue };
+            if j.cmd != JobCmd::None {
+                continue;
+            }
+            let txs = nodes[&j.from].prim_tx.clone();
+            let txr = nodes[&j.to].prim_tx.clone();
+            *tally.entry("stale_resumes").or_insert(0) += 5;
+            cmd_tasks.push(tokio::task::spawn(async move {
+                let start = tokio::time::Instant::now();
+                for (at, at_receiver) in [(150u64, false), (350, true), (600, false), (900, true), (1100, false)] {
+                    tokio::time::sleep_until(start + Duration::from_millis(at)).await;
+                    let _ = if at_receiver { txr.send(UserPrimitive::Resume(id)).await } else { txs.send(UserPrimitive::Resume(id)).await };
+                }
+            }));
+        }
+    }
     for (k, j) in jobs.iter().enumerate() {
         let Some(id) = j.id else { continue };
         let tx = nodes[&j.from].prim_tx.clone();
